@@ -4,6 +4,7 @@ mod vec_engine;
 mod compute_engine;
 mod codec_engine;
 mod import_engine;
+mod lazy_engine;
 
 fn main() {
     let args = common::Args(std::env::args().skip(1).collect());
@@ -13,6 +14,7 @@ fn main() {
         Some("compute") => compute_engine::main(&args),
         Some("codec") => codec_engine::main(&args),
         Some("import") => import_engine::main(&args),
+        Some("lazy") => lazy_engine::main(&args),
         _ => {
             eprintln!("usage: harness <engine> …");
             2
